@@ -125,6 +125,19 @@ theorem set_c1 (a : Arr2 β) (i : Nat) (v : β) (hi : i < a.rows) (hj : 1 < a.co
 theorem set_c2 (a : Arr2 β) (i : Nat) (v : β) (hi : i < a.rows) (hj : 2 < a.cols) :
     a.set (i : Int) 2 v = some (a.upd i 2 v) := set_natCast a i 2 v hi hj
 
+theorem setAt_natCast (a : Arr2 β) (i j : Nat) (v : β) (hi : i < a.rows) (hj : j < a.cols) :
+    a.setAt ((i * a.cols + j : Nat) : Int) v = some (a.upd i j v) := by
+  have := flat_lt a i j hi hj
+  unfold setAt upd
+  rw [Int.toNat_natCast]
+  have h0 : (0 : Int) ≤ ((i * a.cols + j : Nat) : Int) := Int.natCast_nonneg _
+  simp only [h0, this, and_self, if_true]
+
+theorem setAt_of (a : Arr2 β) (pos : Int) (i j : Nat) (v : β)
+    (hpos : pos = ((i * a.cols + j : Nat) : Int)) (hi : i < a.rows) (hj : j < a.cols) :
+    a.setAt pos v = some (a.upd i j v) := by
+  rw [hpos]; exact setAt_natCast a i j v hi hj
+
 theorem empty_natCast (r c : Nat) :
     (Arr2.empty (r : Int) (c : Int) : Option (Arr2 β)) = some ⟨r, c, Array.replicate (r * c) none⟩ := by
   simp [empty]
